@@ -80,6 +80,11 @@ def base_pool():
     P["r_bc"] = X.rel(["b", "c"], [[N(2), N(5)]])
     P["r_atx"] = X.rel(["@", "x"], [[N(0), N(1)], [N(1), N(2)]])
     P["r_set"] = X.set_([X.tup([("a", N(1)), ("b", N(2))]), X.tup([("a", N(2)), ("b", N(2))])])
+    # join-built relations: the stored heading is left ++ right, not sorted
+    P["rj_ba"] = X.join("<&>", X.rel(["b"], [[N(2)], [N(3)]]), X.rel(["a"], [[N(1)]]))           # = r_ab
+    P["rj_cab"] = X.join("<&>", X.rel(["c"], [[N(5)]]), X.rel(["a", "b"], [[N(1), N(2)], [N(2), N(2)]]))
+    P["rj_bc"] = X.join("<&>", X.rel(["c"], [[N(5)]]), X.rel(["b"], [[N(2)]]))                      # = r_bc
+    P["rj_x_at"] = X.join("<&>", X.rel(["x"], [[N(1)]]), X.rel(["@"], [[N(0)]]))
     # unions (several buckets)
     P["u_str_num"] = X.binop("|", X.string("ab"), X.set_([N(1)]))
     P["u_arr_str"] = X.binop("|", X.arr([N(1)]), X.string("a"))
